@@ -61,7 +61,7 @@ SIG_POOL = ['', 's', 'i', 'ss', 'as', 'a{sv}', '(is)', 'v', 'x', 't', 'ay', 'b',
 SMALL_SIGS = ['', 's', 'i', 'ss', 'as', '(is)', 'v']
 
 BEHAVIOURS = ['value', 'value', 'value', 'defer-value', 'defer-raise', 'raise-plain', 'raise-named',
-              'raise-badname', 'bad-return', 'fired-deferred']
+              'raise-badname', 'bad-return', 'fired-deferred', 'raise-nulname']
 
 INTROSPECTABLE = 'org.freedesktop.DBus.Introspectable'
 
@@ -295,6 +295,11 @@ def gen_scenario(rng, small=False):
                 if len(set(spec['levels'])) == 1:
                     spec['levels'][-1] = min(depth - 1, spec['levels'][-1] + 1)
                 spec['depth'] = depth
+            elif any(len(i2['methods']) >= 2 for i2 in ifaces) and r < 0.45:
+                # every member bound with @dbusMethod, the members of ONE interface spread over a class and its base
+                # (the called method may live only in the base while the derived class declares another member)
+                spec['layout'] = 'split'
+                spec['split_decl'] = rng.choice([0, 1])      # the class level that declares dbusInterfaces
             elif has_dup and r < 0.5:
                 spec['layout'] = 'decodbus'       # dbus_<m> itself DECORATED for the first interface, impl_ for the second
             elif has_dup and r < 0.7:
@@ -487,7 +492,19 @@ def gen_revision_scenario(rng):
                       'member': m2[0], 'how': 'explicit', 'wrong': None, 'kw': rng.choice([None, name]),
                       'bad_args': False, 'order': 'decl', 'after': 0, 'register': rng.random() < 0.4,
                       'args': [valcodec.to_line(x) for x in gen_body(rng, m2[1])]})
-    if rng.random() < 0.6:
+    if rng.random() < 0.5:
+        # revision 1 learned, then revision 2 learned WITH replacement (the cache must now hold revision 2), then a
+        # proxy for the revision-2 object created BY NAME (served from the cache, no introspection): revision 2
+        mb = rng.choice(rev2)
+        kb = len(calls)
+        calls.append({'caller': caller, 'export': 1, 'iface': name, 'member': mb[0], 'how': 'introspect',
+                      'wrong': None, 'kw': None, 'bad_args': False, 'order': 'decl', 'after': 0, 'replace': True,
+                      'args': [valcodec.to_line(x) for x in gen_body(rng, mb[1])]})
+        mc = rng.choice(rev2)
+        calls.append({'caller': caller, 'export': 1, 'iface': name, 'member': mc[0], 'how': 'byname',
+                      'wrong': None, 'kw': None, 'bad_args': False, 'order': 'decl', 'after': kb, 'replace': False,
+                      'args': [valcodec.to_line(x) for x in gen_body(rng, mc[1])]})
+    elif rng.random() < 0.6:
         # the same caller INTROSPECTS the revision-2 object after the revision-1 one: with replaceKnownInterfaces=True
         # the proxy must follow revision 2; without it the cached revision 1 is used as it is (documented: stale)
         m2 = rng.choice(rev2)
@@ -545,7 +562,15 @@ class BadNameError(Exception):
     dbusErrorName = 'not a valid name'
 
 
-EXC_CLASSES = {'BoomError': BoomError, 'NamedError': NamedError, 'BadNameError': BadNameError}
+class NulNameError(Exception):
+    # invalid as an error name AND not even a DBus string: the reply must still be sent (InvalidErrorName, the name
+    # quoted in the text with the NUL escaped)
+    dbusErrorName = 'bad\x00name.with nul'
+
+
+EXC_CLASSES = {'BoomError': BoomError, 'NamedError': NamedError, 'BadNameError': BadNameError,
+               'NulNameError': NulNameError}
+INVALID_NAMES = ('not a valid name', NulNameError.dbusErrorName)
 EXC_ARGS = [['boom'], [''], ['café \U0001f600'], ['two\nlines'], ['x' * 60], [], ['a', 'b'], [5], ['nul\x00inside'],
             ['boom']]
 
@@ -646,7 +671,7 @@ class Run:
                     nargs = len(complete_types(m[1]))
                     params = ['a%d' % k for k in range(nargs)]
                     dup = _dup_member(spec, m[0])
-                    decorated = dup and not (layout == 'mixed' and first_with[m[0]] == ii)
+                    decorated = (dup and not (layout == 'mixed' and first_with[m[0]] == ii)) or layout == 'split'
                     if layout == 'hier-mixed' and dup:
                         # the occurrence in the DEEPEST class is the plain one
                         last_with = max(k2 for k2, i2 in enumerate(spec['ifaces']) if any(x[0] == m[0] for x in i2['methods']))
@@ -663,18 +688,24 @@ class Run:
                     else:
                         f = self._make_func(ei, fname, params, m[3], fid, i['name'], m[0])
                     deco = None
-                    if decorated:
+                    if decorated or (layout == 'decodbus' and dup and first_with[m[0]] == ii):
                         f = objects.dbusMethod(i['name'], m[0])(f)
                         deco = (i['name'], m[0])
                     f._fid = fid
                     made.append((fname, f, fid, deco))
-                    made_level.append(spec['levels'][ii] if 'levels' in spec else 0)
-            if layout in ('hier', 'hier-mixed'):
-                depth = spec['depth']
+                    if layout == 'split':
+                        made_level.append(len([x for x in made if x[3] and x[3][0] == i['name']]) % 2)
+                    else:
+                        made_level.append(spec['levels'][ii] if 'levels' in spec else 0)
+            if layout in ('hier', 'hier-mixed', 'split'):
+                depth = spec['depth'] if layout != 'split' else 2
                 level_attrs = [dict() for _ in range(depth)]
                 level_list = [[] for _ in range(depth)]
                 for lv in range(depth):
-                    here = [ifs[k] for k in range(len(ifs)) if spec['levels'][k] == lv]
+                    if layout == 'split':
+                        here = list(ifs) if lv == spec.get('split_decl', 1) else []
+                    else:
+                        here = [ifs[k] for k in range(len(ifs)) if spec['levels'][k] == lv]
                     if here:
                         level_attrs[lv]['dbusInterfaces'] = here
                 for (fname, f, fid, deco), lv in zip(made, made_level):
@@ -790,7 +821,7 @@ class Run:
                 if xml is not None:
                     self.lines.append('intro %d %s %s' % (j, hs(p), tok(xml)))
                     self.expect.append('ok')
-        for nm in ('not a valid name',):
+        for nm in INVALID_NAMES:
             self.lines.append('badname %s' % hs(nm))
             self.expect.append('ok')
 
@@ -910,7 +941,8 @@ class Run:
                 rec['result'] = ('value', ret)
             else:
                 cls = {'raise-plain': 'BoomError', 'raise-named': 'NamedError', 'raise-badname': 'BadNameError',
-                       'defer-raise': vr.choice(['BoomError', 'NamedError'])}[kind]
+                       'raise-nulname': 'NulNameError',
+                       'defer-raise': vr.choice(['BoomError', 'NamedError', 'NulNameError', 'BadNameError'])}[kind]
                 eargs = vr.choice(EXC_ARGS)
                 rec['result'] = ('raised', cls, exc_text(cls, eargs), eargs)
             self.net.log.append(('inv', 'cli:%d' % j, rec))
@@ -1547,8 +1579,13 @@ class Run:
                     name, cname = rec.get('exc_dbus'), res[1][1:]
                 else:
                     name, cname = getattr(EXC_CLASSES[res[1]], 'dbusErrorName', None), res[1]
-                if name == 'not a valid name':
-                    continue        # an invalid error name cannot be mirrored; InvalidErrorName is the documented answer
+                if name in INVALID_NAMES:
+                    # an invalid error name cannot be mirrored (InvalidErrorName is the documented answer), but the call
+                    # must complete with a RemoteError all the same - also when the name is not even a DBus string
+                    if kind != 'fail' or not isinstance(val.value, error.RemoteError):
+                        self.flag('error-not-mirrored', 'the method raised (invalid error name) but the proxy call did '
+                                  'not fail with RemoteError', observed=self.outcome_text(kind, val), expected='RemoteError')
+                    continue
                 want_name = name or 'org.txdbus.PythonException.' + cname
                 if kind != 'fail' or not isinstance(val.value, error.RemoteError):
                     self.flag('error-not-mirrored', 'the method raised but the proxy call did not fail with RemoteError',
